@@ -1,0 +1,27 @@
+//go:build verif
+// +build verif
+
+package ggql
+
+// VerifHook, when set before any goroutine uses the package, is called at
+// the labelled verification points. It exists only in builds with the verif
+// tag and is used by external model-conformance harnesses.
+var VerifHook func(point string, ref interface{})
+
+func verifPoint(point string, ref interface{}) {
+	if h := VerifHook; h != nil {
+		h(point, ref)
+	}
+}
+
+// VerifSubscribers returns the subscribers currently in the registry, in
+// registration order.
+func (root *Root) VerifSubscribers() []Subscriber {
+	root.subLock.Lock()
+	defer root.subLock.Unlock()
+	subs := make([]Subscriber, 0, len(root.subscriptions))
+	for _, s := range root.subscriptions {
+		subs = append(subs, s.sub)
+	}
+	return subs
+}
